@@ -88,10 +88,30 @@ class Model:
                             out.add(r["path"])
                         if c["path"] in self.fb.bodies:
                             out.add(c["path"])
+                def fn_item(op):
+                    # a function item used as a value (`.map(helper)`, `try_fold(init, step_fn)`)
+                    if isinstance(op, dict) and op.get("k") == "const" and "fn" in op:
+                        f = op["fn"]
+                        r = f.get("resolved")
+                        if isinstance(r, dict) and r.get("path") in self.fb.bodies:
+                            out.add(r["path"])
+                        if f.get("path") in self.fb.bodies:
+                            out.add(f["path"])
+                for bb, t in b.calls():
+                    for a in t["args"]:
+                        fn_item(a)
                 for bb, si, s in b.stmts():
-                    if s["k"] == "assign" and s["rv"]["k"] == "agg" and s["rv"]["ak"] in ("closure", "coroutine", "coroutine_closure"):
-                        if s["rv"]["def"] in self.fb.bodies:
-                            out.add(s["rv"]["def"])
+                    if s["k"] != "assign":
+                        continue
+                    rv = s["rv"]
+                    if rv["k"] == "agg" and rv["ak"] in ("closure", "coroutine", "coroutine_closure"):
+                        if rv["def"] in self.fb.bodies:
+                            out.add(rv["def"])
+                    if rv["k"] in ("use", "cast"):
+                        fn_item(rv.get("op"))
+                    elif rv["k"] == "agg":
+                        for o in rv["ops"]:
+                            fn_item(o)
                 cg[b.id] = out
             self._cg = cg
         return self._cg
